@@ -8,7 +8,7 @@ use ciborium as cbor;
 use ciborium_io::{Read, Write};
 use rustix::{
     fd::{AsFd, BorrowedFd, OwnedFd},
-    fs::{self, AtFlags, FlockOperation, Mode, OFlags},
+    fs::{self, AtFlags, FlockOperation, Mode, OFlags, SeekFrom},
     io::{self, Errno},
     path::Arg,
 };
@@ -235,6 +235,12 @@ impl<T: WrappedKey> Occupied<T> for OccupiedEntry<'_, T> {
     type Error = Error;
 
     fn get(&self) -> Result<T, Self::Error> {
+        // Always decode from the start of the file. The file
+        // offset belongs to the open file description, so
+        // a previous `get` (or the `get` in `remove`) leaves it
+        // at the end of the key and the next read would
+        // otherwise fail with `UnexpectedEof`.
+        fs::seek(&self.fd.0, SeekFrom::Start(0))?;
         Ok(cbor::from_reader(&self.fd)?)
     }
 
